@@ -12,7 +12,7 @@ THEOREMS = ["EngineModel.Properties.C10." + t for t in [
     "C10_create_or_load_both_layouts", "C10_create_or_load_creates", "C10_create_or_load_creation_fails",
     "C10_dir_load_reports_created", "C10_load_exists_keep_directory", "C10_create_or_load_old_counterexample",
     "C10_durable_is_visible", "C10_reopen_invisible", "C10_every_prefix", "C10_atomic_calls_settle", "C10_api_model",
-    "C10_api_model_reopen", "C10_crates_v1", "C10_crates_v2", "C10_tracks_v2"]]
+    "C10_api_model_reopen", "C10_crates_v1", "C10_crates_v2", "C10_tracks_v2", "C10_tracks_v1"]]
 ASSUMPTIONS = [
     "durability is SQLite's: what a connection has committed is what a later connection on the same files reads "
     "(modelled as Conn.reopen = idle on the committed database; sampled by closing and loading real on-disk libraries "
